@@ -90,6 +90,10 @@ def generic(name, n, salt, complex_=False):
     mixed = rng.uniform(-1.5, 1.5, n)
     pick = rng.uniform(0, 1, n) < 0.7
     val = np.where(pick, pos, mixed)
+    if n >= 3:
+        # the last generic point is negative for EVERY input at once: helper functions whose meaning depends on a sign
+        # (guarded division, absolute values, comparisons) are exercised on both sides for every argument
+        val[-1] = -pos[-1]
     if complex_:
         val = val + 1j * rng.uniform(-1.2, 1.2, n)
     return val
